@@ -193,6 +193,26 @@ func merge[EntityT entity.Interface](def Definition, wrapper func(e *Entity) Ent
 		return entity.NewMergeUpdatedStatus(id, remoteEntity)
 	}
 
+	// A concurrent edition starts from a common history. A remote history that shares no commit
+	// with the local one (another root commit carrying the same first operations, hence the same
+	// id) is refused: joining the two would give an entity with two roots, which can't be read
+	// anymore.
+	shared := false
+	inLocal := make(map[repository.Hash]struct{}, len(localCommits))
+	for _, hash := range localCommits {
+		inLocal[hash] = struct{}{}
+	}
+	for _, hash := range remoteCommits {
+		if _, ok := inLocal[hash]; ok {
+			shared = true
+			break
+		}
+	}
+	if !shared {
+		return entity.NewMergeInvalidStatus(id,
+			fmt.Sprintf("remote %s shares no history with the local one", def.Typename))
+	}
+
 	// SCENARIO 5
 	// if both local and remote Entity have new commits (that is, we have a concurrent edition),
 	// a merge commit with an empty operationPack is created to join both branch and form a DAG.
